@@ -31,12 +31,15 @@ def chunk_table(Z):
     return p, tab
 
 
-def write(case, cdir, D, seg, name):
+def write(case, cdir, D, seg, name, companion=None):
     cfg = dict(case["cfg"])
     files = {"in.dat": D}
     if case.get("dict"):
         files["dict.bin"] = gen.content("license", case["dict"], 11)
         cfg["dict"] = "dict.bin"
+    if companion:
+        files["other.dat"] = gen.content(*companion["content"])
+        cfg["companion"] = {"file": "other.dat", "piece": companion["piece"], "comp": companion.get("comp", cfg.get("comp", 2)), "cmin": cfg.get("cmin"), "cmax": cfg.get("cmax")}
     w = core.run_zh(case["zh"], cdir, gen.writer_script(cfg, seg=seg), files, name=name)
     cs = core.crash_signatures(w)
     cl = w.first(op="close")
@@ -187,7 +190,7 @@ def worker(case):
         marks = notes["marks"]
     else:
         X = gen.content(*case["content"])
-    cid = core.h8([case["content"], case["cfg"], case["segs"], case["edit"], case.get("dict"), (case.get("dense") or {}).get("layout")])
+    cid = core.h8([case["content"], case["cfg"], case["segs"], case["edit"], case.get("dict"), (case.get("dense") or {}).get("layout"), case.get("companions")])
     viol = None
     try:
         Z0, w0, cs = write(case, cdir, X, [1 << 30], "w_one")
@@ -242,6 +245,25 @@ def worker(case):
                 sk = "repeat" if si == 0 else ("bytes1" if seg == [1] else ("at-crafted-hit" if si >= nb else ("at-boundary" if si >= 1 + len(case["segs"]) else "random")))
                 viol = ("c16:nondeterministic:%s:%s" % (kind, sk), "file differs between one-call write and segmentation %s (%d vs %d chunks)" % (seg[:8], len(t), len(t0)))
                 break
+        # (a') ... and whatever ELSE the same thread writes meanwhile: a second archive fed between the calls (the file is a function
+        # of content and configuration only)
+        if not viol and case.get("companions"):
+            for ci, cpn in enumerate(case["companions"]):
+                Z, w, cs = write(case, cdir, X, cpn["seg"], "w_side%d" % ci, companion=cpn)
+                stats["writes_beside_a_second_archive"] = stats.get("writes_beside_a_second_archive", 0) + 1
+                st = w.first(op="companion_stat") or {}
+                stats["second_archive_write_calls"] = stats.get("second_archive_write_calls", 0) + st.get("calls", 0)
+                if cs:
+                    viol = (cs[0], "writer crashed beside a second archive: %s" % cs)
+                elif Z is None:
+                    viol = ("c16:second-archive-changes-outcome", "write/close failed while a second archive was written in the same thread")
+                elif Z != Z0:
+                    _, t = chunk_table(Z)
+                    kind = "boundaries" if [c["u1"] for c in t] != [c["u1"] for c in t0] else "bytes"
+                    viol = ("c16:nondeterministic:%s:second-archive-in-same-thread" % kind,
+                            "file differs when a second archive (%s, pieces of %d) is written between the calls (%d vs %d chunks)" % (cpn["content"], cpn["piece"], len(t), len(t0)))
+                if viol:
+                    break
         # (c) size bounds of automatic chunks
         if not viol and not case["cfg"].get("manual") and ws:
             amin, amax = ws["auto_min"], ws["auto_max"]
@@ -428,7 +450,7 @@ class C16(core.Check):
     prop = "C16"
     flavours = ["asan"]
     rule = ("four families.  (1) contents (text, license, random, periodic 47/48/49, mixed; 200-900 KB so that >= 4 chunks form) x automatic chunking with default and custom "
-            "min/max x none/zstd x dictionary; each written in one call, repeated, in 1-byte calls (smaller inputs), random call sizes, and calls ending "
+            "min/max (incl. minimum == maximum: 512, 4096, 8192, 16384, 131072) x none/zstd x dictionary; every third content also with a second archive written in the same thread between the calls; each written in one call, repeated, in 1-byte calls (smaller inputs), random call sizes, and calls ending "
             "at / one before / one after every chunk boundary of the first run; plus one edit (insert/delete/replace of 1,47,48,49,4096 bytes at start / "
             "middle / end / chunk seams +-1) for the locality clauses.  (2) hit-dense contents built with the tree's own buzhash table (lib/buz.py): refused hits 1..60 bytes "
             "below the effective minimum, second hits inside the 48-byte shadow of a refused one, hits at max-2..max+2, a hit every 48..400 bytes; same oracles, plus "
@@ -463,7 +485,8 @@ class C16(core.Check):
             kind = kinds[i % len(kinds)]
             size = r.choice([200000, 300000, 500000, 900000]) if not self.quick else r.choice([150000, 250000, 400000])
             cfg = {"comp": r.choice([0, 2]), "level": r.choice([1, 3]) if True else None, "manual": False}
-            bounds = r.choice([None, None, (None, 16384), (8192, 16384), (1, 131072), (20000, 65536), (None, 4096), (200000, 10 << 20), (100, 8192)])
+            bounds = r.choice([None, None, (None, 16384), (8192, 16384), (1, 131072), (20000, 65536), (None, 4096), (200000, 10 << 20), (100, 8192),
+                               (4096, 4096), (512, 512), (8192, 8192), (16384, 16384), (131072, 131072), (8191, 8192), (300, 301)])
             if bounds:
                 if bounds[1] is not None:
                     cfg["cmax"] = bounds[1]
@@ -484,7 +507,13 @@ class C16(core.Check):
             ek = r.choice(["insert", "delete", "replace"])
             en = r.choice([1, 47, 48, 49, 4096])
             ew = r.choice(["start", "middle", "end", r.randrange(0, size), 8192 + r.choice([-1, 0, 1]), 32768 + r.choice([-1, 0, 1])])
-            out.append({"i": i, "content": [kind, size, i], "cfg": cfg, "segs": segs, "boundary_segs": r.random() < (0.5 if self.quick else 0.8),
+            companions = []
+            if i % 3 == 0:
+                companions = [{"content": [r.choice(kinds), r.choice([60000, 150000]), 700000 + i], "piece": r.choice([1, 48, 4096, 70000]), "comp": r.choice([0, 2]),
+                               "seg": r.choice([[4096], [r.choice([1, 47, 48, 49, 100, 8192, 32768]) for _ in range(8)], [65536]])}]
+                if cfg["comp"] == 2 and companions[0]["seg"] != [65536] and size > 100000:
+                    companions[0]["seg"] = [r.choice([4096, 8192, 20000]) for _ in range(6)]   # (small calls on large zstd inputs: quadratic under ASan)
+            out.append({"i": i, "content": [kind, size, i], "cfg": cfg, "segs": segs, "boundary_segs": r.random() < (0.5 if self.quick else 0.8), "companions": companions,
                         "edit": [ek, ew, en], "dict": r.choice([None, None, 2000]) if cfg["comp"] == 2 else r.choice([None, None, None, 3000]), "zh": ctx["zh"]})
         # hit-dense contents: crafted rolling-hash hits around the minimum / maximum size and in each other's shadow
         if ctx.get("table"):
